@@ -2,7 +2,9 @@ package vc
 
 import (
 	"fmt"
+	"go/ast"
 	"go/types"
+	"sort"
 	"strings"
 
 	"golang.org/x/tools/go/ssa"
@@ -28,6 +30,11 @@ func (fr *frame) loopEnv(st *PState, b *ssa.BasicBlock) *SpecEnv {
 			}
 		}
 	}
+	for name, v := range fr.namedLocals(st, b, 0) {
+		if _, taken := vars[name]; !taken {
+			vars[name] = v
+		}
+	}
 	// loop-carried values: phis of the header, by source variable name
 	n := 0
 	for _, ins := range b.Instrs {
@@ -41,6 +48,38 @@ func (fr *frame) loopEnv(st *PState, b *ssa.BasicBlock) *SpecEnv {
 				vars[phi.Comment] = v
 			}
 			vars[fmt.Sprintf("phi%d", n)] = v
+		}
+	}
+	// loop-carried values of the enclosing loops: outer_<name> (nearest), outer2_<name>, ...
+	type encl struct {
+		h    *ssa.BasicBlock
+		size int
+	}
+	var outs []encl
+	for h, body := range fr.loopBody {
+		if h != b && body[b] {
+			outs = append(outs, encl{h, len(body)})
+		}
+	}
+	sort.Slice(outs, func(i, j int) bool {
+		if outs[i].size != outs[j].size {
+			return outs[i].size < outs[j].size
+		}
+		return outs[i].h.Index < outs[j].h.Index
+	})
+	for k, o := range outs {
+		pfx := "outer_"
+		if k > 0 {
+			pfx = fmt.Sprintf("outer%d_", k+1)
+		}
+		for _, ins := range o.h.Instrs {
+			phi, ok := ins.(*ssa.Phi)
+			if !ok {
+				break
+			}
+			if v, ok := st.env[phi]; ok && phi.Comment != "" {
+				vars[pfx+phi.Comment] = v
+			}
 		}
 	}
 	// iterators and ranges in scope
@@ -516,4 +555,52 @@ func (fr *frame) assertSteps(st *PState, b *ssa.BasicBlock, ord int) {
 		tc.addObl(&Obligation{Name: fmt.Sprintf("%s/%s/step:loop%d.%d", ShortName(tc.fn.String()), c.Label, ord, i+1), Func: tc.fn.String(), Label: c.Label,
 			Kind: "step", Decls: append([]string(nil), st.decls...), PC: append([]T(nil), st.pc...), Goal: t, Src: "step " + c.Src})
 	}
+}
+
+// namedLocals gives the plain locals (SSA registers) by source name as they stand just before instruction idx of block
+// at: for each name the definition that reaches that point - the one in a block dominating `at` (or earlier in `at`)
+// that is dominated by every other such definition of the name (debug references of go/ssa). A name whose definitions
+// merge reaches the point as a phi and is not reported here.
+func (fr *frame) namedLocals(st *PState, at *ssa.BasicBlock, idx int) map[string]Val {
+	type cand struct {
+		v   ssa.Value
+		blk *ssa.BasicBlock
+		idx int
+	}
+	best := map[string]cand{}
+	for _, blk := range fr.fn.Blocks {
+		if !blk.Dominates(at) {
+			continue
+		}
+		for i, ins := range blk.Instrs {
+			if blk == at && i >= idx {
+				break
+			}
+			d, ok := ins.(*ssa.DebugRef)
+			if !ok || d.IsAddr {
+				continue
+			}
+			id, ok := d.Expr.(*ast.Ident)
+			if !ok || id.Name == "_" {
+				continue
+			}
+			if _, have := st.env[d.X]; !have {
+				if _, isConst := d.X.(*ssa.Const); !isConst {
+					continue
+				}
+			}
+			c, seen := best[id.Name]
+			if !seen || (c.blk != blk && c.blk.Dominates(blk)) || (c.blk == blk && i > c.idx) {
+				best[id.Name] = cand{d.X, blk, i}
+			}
+		}
+	}
+	out := map[string]Val{}
+	for name, c := range best {
+		func() {
+			defer func() { recover() }()
+			out[name] = fr.val(st, c.v)
+		}()
+	}
+	return out
 }
